@@ -12,13 +12,13 @@ import (
 )
 
 func init() {
-	register(&Rule{ID: "E-WRITE-OWNERSHIP", Props: []string{"C06", "C07", "C13", "C15", "C01", "C17", "C12", "C18"}, Floor: 40,
+	register(&Rule{ID: "E-WRITE-OWNERSHIP", Props: []string{"C06", "C07", "C13", "C15", "C01", "C17", "C12", "C18", "C19"}, Floor: 40,
 		Doc: "every memory write in API-reachable code of the evaluator and root packages (store through an element/field/pointer address, map update, first argument of append, argument written by a mutating library call) targets memory allocated in the same call; types whose methods write through their fields are constructed only from fresh memory",
 		Run: ruleEWriteOwnership})
 	register(&Rule{ID: "E-AST-READONLY", Props: []string{"C06", "C07", "C19"}, Floor: 3,
 		Doc: "no store to a field of a parser node, of Expression or of the evaluator outside their constructors; Expression.node is set only in the literals of Compile/MustCompile, evaluator fields only in Evaluate",
 		Run: ruleEAstReadonly})
-	register(&Rule{ID: "A-GLOBALS", Props: []string{"C07", "C06", "C15"}, Floor: 4,
+	register(&Rule{ID: "A-GLOBALS", Props: []string{"C07", "C06", "C15", "C16", "C04", "C19"}, Floor: 4,
 		Doc: "every package-level variable of the four packages is never stored to, updated through, or passed by address in API-reachable code; only error sentinels and read-only tables are allowed, sync/atomic-typed state is outside the analysable fragment",
 		Run: ruleAGlobals})
 	register(&Rule{ID: "A-NOGO", Props: []string{"C07", "C15"}, Floor: 1,
